@@ -213,6 +213,12 @@ class MapToMolecule(Processor):
         # in this case the node belongs to a fragment for which there is a
         # multiresidue block
         if "from_itp" in meta_molecule.nodes[start_node]:
+            # the block numbers its residues from its own first residue id;
+            # shift them to the residue ids of the fragment in the residue graph
+            resid_shift = resid_dict[start_node] - min(nx.get_node_attributes(new_mol, "resid").values())
+            if resid_shift:
+                for mol_node in new_mol.nodes:
+                    new_mol.nodes[mol_node]["resid"] += resid_shift
             # add all nodes of that fragment to added_fragment nodes
             fragment_nodes = list(self.fragments[self.node_to_fragment[start_node]])
             self.added_fragment_nodes += fragment_nodes
